@@ -24,6 +24,12 @@ func main() {
 		checks.DebugHist(os.Args[2:])
 		return
 	}
+	if id == "debug" {
+		idx := 0
+		fmt.Sscan(os.Args[3], &idx)
+		checks.DebugHistScenario(os.Args[2], idx, os.Args[4:])
+		return
+	}
 	c, ok := checks.All[id]
 	if !ok {
 		fmt.Fprintf(os.Stderr, "unknown check %s\n", id)
